@@ -151,11 +151,12 @@ def deferred_kill_wiring(chk: Check) -> None:
     cia = prog.func('processes.Process._create_interrupt_action')
     exc_param = cia.params[1] if len(cia.params) > 1 else 'exception'
     ffc = chk.ctx.facts.analyse(cia)
-    act_sites = dispatch_sites(ffc, lambda c: last_name(c) == 'CancellableAction')
-    kill_sites = [(n, c) for n, c, pins in act_sites if any(v.endswith('KillInterruption') for v in pins.get(f'isinstance:{exc_param}', set()))]
-    act = kill_sites[0][1] if len(kill_sites) == 1 else None
-    targets = resolve_callable_ref(chk.ctx, cia, act.args[0]) if act is not None and act.args else []
-    ok_act = act is not None and len(targets) == 1 and any(k.arg == 'cookie' and norm(k.value) == exc_param for k in act.keywords)
+    from ..rules import action_built_for
+    built = action_built_for(chk.ctx, cia, 'KillInterruption')
+    act = built[0][0] if built and all(b[0] is not None for b in built) else None
+    tsets = [resolve_callable_ref(chk.ctx, cia, b[1]) if b[1] is not None else [] for b in built]
+    targets = tsets[0] if tsets and all(len(t_) == 1 and t_[0][0] is tsets[0][0][0] for t_ in tsets) else []
+    ok_act = act is not None and len(targets) == 1 and all(b[2] == exc_param for b in built)
     chk.ob('PROV-deferred-kill', cia, ok_act, 'a KillInterruption yields CancellableAction(<kill action>, cookie=<that interruption>)',
            node=act or cia.node, kind='action-for-kill-interruption')
     chk.need(len(targets) == 1, 'the action run for a KillInterruption could not be resolved to one function')
